@@ -236,7 +236,10 @@ def run(tier, seed, rep):
         fullset = {v[seed % len(v)] for v in bytype.values()}
         for transport in (('udp', 'tcp') if cfg['family'] != 'ES' else ('udp',)):
             for sid in sids:
-                full = (tier == 'thorough' and sid in fullset and (transport == 'udp' or cfg['name'] == 'ET-v2'))
+                # thorough: the whole encodable domain for EVERY setting of ET-v2 / DT / ES over UDP, and for one setting
+                # per type on the other configurations and over TCP
+                full = tier == 'thorough' and ((transport == 'udp' and cfg['name'] in ('ET-v2', 'DT-3ph', 'DT-1ph', 'ES-aa55', 'ES-v2'))
+                                               or (sid in fullset and (transport == 'udp' or cfg['name'] == 'ET-v2')))
                 jobs.append((cfg, sid, transport, full, seed))
     total = 0
     ne = 0
